@@ -442,6 +442,25 @@ func c10BuildFixture(t *testing.T, dir string) *c10Fixture {
 		os.WriteFile(cut, a.CarData[:len(a.CarData)/2], 0o644)
 		fx.cars["cut"] = cut
 	}
+	{
+		// "twin": a well-formed CAR with exactly epoch A's layout (same header, same section sizes at the same
+		// offsets) whose every object differs in its last byte and carries the CID of its own bytes
+		a := fx.A.G
+		out := append([]byte{}, a.CarData...)
+		for _, ob := range a.Objs {
+			if len(ob.Data) == 0 {
+				continue
+			}
+			dataOff := int(ob.Offset+ob.SecLen) - len(ob.Data)
+			nd := append([]byte{}, ob.Data...)
+			nd[len(nd)-1] ^= 1
+			copy(out[dataOff:], nd)
+			copy(out[dataOff-36:dataOff], mkCid(nd).Bytes())
+		}
+		p := filepath.Join(dir, "twin.car")
+		os.WriteFile(p, out, 0o644)
+		fx.cars["twin"] = p
+	}
 	fx.synthDir = filepath.Join(dir, "synth")
 	os.MkdirAll(fx.synthDir, 0o755)
 	return fx
@@ -889,6 +908,58 @@ func (h *c10H) execFetch(line string, w []string) {
 	}
 }
 
+// execPFetch: `pfetch <variant> block|tx <slot|sig hex> <cid> <off> <size> <bytes>` — Epoch.GetBlock / GetTransaction with
+// the prefetch flag (what the RPC handlers do), then the CID-addressed fetch of that object
+func (h *c10H) execPFetch(line string, w []string) {
+	v := w[1]
+	ep, err := h.variantEpoch(v)
+	if err != nil {
+		h.op(line, "noload:"+err.Error(), false)
+		return
+	}
+	_, c, err := cid.CidFromBytes(zz.Unhex(w[4]))
+	if err != nil {
+		h.op(line, "bad-cid", false)
+		return
+	}
+	ctx := WithSubrapghPrefetch(context.Background(), true)
+	var data []byte
+	out := zz.Guard(func() string {
+		switch w[2] {
+		case "block":
+			slot, _ := strconv.ParseUint(w[3], 10, 64)
+			ep.GetBlock(ctx, slot)
+		case "tx":
+			var sig [64]byte
+			copy(sig[:], zz.Unhex(w[3]))
+			ep.GetTransaction(ctx, sig)
+		}
+		d, err := ep.GetNodeByCid(context.Background(), c)
+		if err != nil {
+			return "err"
+		}
+		data = d
+		return fmt.Sprintf("ok %d %016x", len(d), xxhash.Sum64(d))
+	})
+	h.op(line, out, strings.HasPrefix(out, "ok"))
+	h.s.Count("pfetch:" + v + ":" + w[2] + ":" + strings.SplitN(out, " ", 2)[0])
+	if strings.HasPrefix(out, "ok") {
+		var own []byte
+		for _, ob := range h.fx.A.G.Objs {
+			if ob.Cid.Equals(c) {
+				own = ob.Data
+			}
+		}
+		if own == nil || !bytes.Equal(own, data) {
+			h.viol(fmt.Sprintf("after %s with the prefetch flag, GetNodeByCid(%s) through CAR variant %q returned %d bytes that are not that object's bytes", w[2], c, v, len(data)),
+				"C10:wrong-car-returns-foreign-bytes:after-prefetch", line)
+		}
+	}
+	if out == "panic" {
+		h.viol("GetBlock/GetTransaction/GetNodeByCid panicked: "+zz.LastPanic, "C10:fetch-panic", line)
+	}
+}
+
 func c10ParseKVArg(s string) (indexmeta.KV, bool) {
 	p := strings.Split(s, ":")
 	if len(p) != 2 {
@@ -984,6 +1055,8 @@ func (h *c10H) exec(line string) {
 		h.execLoad(line, w)
 	case w[0] == "fetch" && len(w) == 6:
 		h.execFetch(line, w)
+	case w[0] == "pfetch" && len(w) == 8:
+		h.execPFetch(line, w)
 	case w[0] == "menc", w[0] == "mdec" && len(w) == 2, w[0] == "ident" && len(w) == 2:
 		h.execMeta(line, w)
 	default:
@@ -1410,7 +1483,34 @@ func (h *c10H) generate(thorough bool) {
 
 	// --- CID-addressed fetches through epoch A's indexes with another CAR behind them
 	h.exec("case wrong-car")
-	for _, v := range []string{"own", "other", "shift", "cut"} {
+	for _, v := range []string{"own", "twin"} {
+		ep, err := h.variantEpoch(v)
+		if err != nil {
+			h.s.Count("pfetch:" + v + ":epoch-does-not-load")
+			continue
+		}
+		car, _ := os.ReadFile(fx.cars[v])
+		for bi, b := range fx.A.G.Blocks {
+			if bi >= 6 && !thorough {
+				break
+			}
+			emit := func(kind, key string, c cid.Cid) {
+				oas, err := ep.FindOffsetAndSizeFromCid(context.Background(), c)
+				if err != nil {
+					return
+				}
+				lo, hi := min(oas.Offset, uint64(len(car))), min(oas.Offset+oas.Size, uint64(len(car)))
+				h.exec(fmt.Sprintf("pfetch %s %s %s %s %d %d %s", v, kind, key, hx(c.Bytes()), oas.Offset, oas.Size, hx(car[lo:hi])))
+			}
+			emit("block", fmt.Sprint(b.Slot), b.Cid)
+			for ti, tx := range b.Txs {
+				if ti < 2 {
+					emit("tx", hx(tx.Sig[:]), tx.Cid)
+				}
+			}
+		}
+	}
+	for _, v := range []string{"own", "other", "shift", "cut", "twin"} {
 		ep, err := h.variantEpoch(v)
 		if err != nil {
 			// not a violation by itself: the property allows loading to fail here
